@@ -109,9 +109,9 @@ Proof. exact diff_gr_orig_refuted_lemma. Qed.
 Print Assumptions diff_gr_component_count_refuted.
 
 (** ** hdiff reports no difference and exits 0 exactly when two comparable files hold equal content.
-    [comparable] (ToolsModel.v): same object names in the same order, objects pairwise of the same class, type and
-    shape with in-range (or floating) values and attributes of the same name/type/length, global attribute names
-    unique.  Outside it: "Comparison not supported" objects (excluded by the property), and objects present in one
+    [comparable] (ToolsModel.v): same object names in the same order, objects pairwise of the same class; datasets and images of the same type
+    and shape with in-range (or floating) values; any attributes, any Vdata headers (their differences are counted since
+    fixes 46597fc / ea7db26); global attribute names unique.  Outside it: "Comparison not supported" objects (excluded by the property), and objects present in one
     file only (refuted above, known finding). *)
 Theorem hdiff_exit_iff_same_content : forall f1 f2, comparable f1 f2 ->
   (hdiff_m f1 f2 = 0 <-> same_content f1 f2 = true) /\ hdiff_exit_m f1 f2 = spec_exit f1 f2.
@@ -188,6 +188,23 @@ Theorem dumpvd_prints_each_record_once : forall nv vsize, 0 <= nv -> 1 <= vsize 
 Proof. exact dumpvd_records_lemma. Qed.
 Print Assumptions dumpvd_prints_each_record_once.
 
+(** ** hdiff_list.c: a lone dataset / image is entered into the object table unless the table already holds it
+    under one of ITS OWN tags -- an object of another kind that happens to carry the same reference number (refs
+    are unique per tag only) does not hide it.  (Regenerated: does the "already inserted?" test look at the tag;
+    with a ref-only test list_*_checks_tag becomes 0 and the proof fails.) *)
+Theorem lone_objects_listed : forall refs tbl r, In r refs ->
+  (exists t, In t (DFTAG_NDG :: sds_tags) /\ In (t, r) (list_lone_sds refs tbl)) /\
+  (exists t, In t (DFTAG_RI :: gr_tags) /\ In (t, r) (list_lone_gr refs tbl)).
+Proof. exact lone_objects_listed_lemma. Qed.
+Print Assumptions lone_objects_listed.
+
+(** ** hdp dumpvd -f: the field indices used for a Vdata depend on that Vdata's fields and the chosen names only,
+    not on the Vdatas dumped before it (regenerated: the index array is reset inside getFieldIndices). *)
+Theorem field_selection_stateless : forall prev vds chosen,
+  fields_walk prev vds chosen = map (fun fields => chosen_indices 0 fields chosen) vds.
+Proof. exact field_selection_stateless_lemma. Qed.
+Print Assumptions field_selection_stateless.
+
 (** ** hdp: sdsdumpfull's start[]/left[] walk visits the rows in row-major order, terminates exactly after the
     last row (the result is not an artefact of the fuel), and the row-major linearisation is its inverse. *)
 Theorem dump_order_rowmajor : forall dims, Forall (fun d => 0 < d) dims ->
@@ -208,18 +225,27 @@ Theorem decimal_text_roundtrip : forall ws z rest, Forall (fun c => is_space c =
 Proof. exact scan_int_fmt_dec. Qed.
 Print Assumptions decimal_text_roundtrip.
 
-(** ** hdfimport, TEXT input, integer output types: the dataset has the shape and the values of its input. *)
-Theorem import_shape_values : forall outbits tag w1 w2 w3 planes rows cols hdr data tail,
+(** ... and so does every other spelling fscanf %d accepts for the same number: leading zeros, explicit sign
+    (0012, -088, +5).  (With %i instead of %d in gint32 the conversion is unknown to the model and
+    import_shape_values no longer checks; zero-padded tokens make the tool itself fail.) *)
+Theorem decimal_text_padded : forall zs n, Forall (fun c => c = 48) zs -> 0 <= n ->
+  spelled (zs ++ fmt_nat n) n /\ spelled (45 :: zs ++ fmt_nat n) (- n) /\ spelled (43 :: zs ++ fmt_nat n) n.
+Proof. exact spelled_padded_lemma. Qed.
+Print Assumptions decimal_text_padded.
+
+(** ** hdfimport, TEXT input, integer output types: the dataset has the shape and the values of its input,
+    whatever spelling ([spelled]) and white space each token uses. *)
+Theorem import_shape_values : forall outbits tag (tp tr tc : token) planes rows cols hdr data tail,
   outbits = 8 \/ outbits = 16 \/ outbits = 32 ->
-  length tag = 4%nat -> good_sep w1 -> good_sep w2 -> good_sep w3 ->
+  length tag = 4%nat -> good_tok tp -> good_tok tr -> good_tok tc -> tval tp = planes -> tval tr = rows -> tval tc = cols ->
   1 <= planes <= 2147483647 -> 2 <= rows <= 2147483647 -> 2 <= cols <= 2147483647 ->
-  Forall (fun t => good_sep (fst t)) hdr -> Forall (fun t => good_sep (fst t)) data ->
+  Forall good_tok hdr -> Forall good_tok data ->
   Z.of_nat (length hdr) = 2 + ((if 1 <? planes then planes else 0) + rows + cols) ->
   Z.of_nat (length data) = planes * rows * cols ->
-  Forall (fun t => in_range (fst (import_range outbits)) (snd (import_range outbits)) (snd t)) data ->
+  Forall (fun t => in_range (fst (import_range outbits)) (snd (import_range outbits)) (tval t)) data ->
   no_digit_head tail ->
-  import_m outbits (tag ++ render [(w1, planes); (w2, rows); (w3, cols)] ++ render hdr ++ render data ++ tail)
-  = Some (spec_import planes rows cols (map snd data)).
+  import_m outbits (tag ++ render [tp; tr; tc] ++ render hdr ++ render data ++ tail)
+  = Some (spec_import planes rows cols (map tval data)).
 Proof. exact import_shape_values_lemma. Qed.
 Print Assumptions import_shape_values.
 
@@ -260,13 +286,16 @@ Example ex_text : fmt_dec (-2147483648) = [45; 50; 49; 52; 55; 52; 56; 51; 54; 5
   hdp_print DFNT_UINT16 65535 = Some [54; 53; 53; 51; 53] /\ hdp_print DFNT_INT8 (-7) = Some [45; 55].
 Proof. repeat split; vm_compute; reflexivity. Qed.
 
-Example ex_import : good_sep [10] /\ good_sep [32; 32] /\
-  import_m 8 ([84; 69; 88; 84] ++ render [([10], 1); ([32], 2); ([32], 2)] ++ render [([10], 127); ([32], -128); ([10], 0); ([32], 1); ([32], 0); ([32], 1)]
-              ++ render [([10], -128); ([32], 5); ([10], 7); ([32; 32], 127)] ++ [10])
-  = Some ([2; 2], [-128; 5; 7; 127]).
+Example ex_import : good_tok (canon [10] 2) /\ good_tok ([32; 32], ([48; 48; 49; 50], 12)) /\
+  import_m 32 ([84; 69; 88; 84] ++ render [canon [10] 1; canon [32] 2; ([32], ([43; 48; 50], 2))]
+              ++ render [canon [10] 127; canon [32] (-128); canon [10] 0; canon [32] 1; canon [32] 0; canon [32] 1]
+              ++ render [([10], ([45; 48; 56; 56], -88)); ([32; 32], ([48; 48; 49; 50], 12)); canon [10] 7; ([32], ([48; 57], 9))] ++ [10])
+  = Some ([2; 2], [-88; 12; 7; 9]).
 Proof.
-  split; [split; [discriminate | repeat constructor]|]. split; [split; [discriminate | repeat constructor]|].
-  vm_compute. reflexivity.
+  split; [split; [split; [discriminate | repeat constructor] | apply spelled_canonical]|].
+  split; [split; [split; [discriminate | repeat constructor]|]|].
+  - exact (proj1 (decimal_text_padded [48; 48] 12 ltac:(repeat constructor) ltac:(lia))).
+  - vm_compute. reflexivity.
 Qed.
 
 Definition ex_file3 : file :=
@@ -330,3 +359,13 @@ Proof. vm_compute. split; reflexivity. Qed.
 Example ex_dumpvd_pieces : dumpvd_m 9 400000 = Some [0; 1; 2; 3; 4; 5; 6; 7; 8] /\ dumpvd_chunk 400000 = 2 /\
   dumpvd_m 3 12 = Some [0; 1; 2].
 Proof. vm_compute. repeat split; reflexivity. Qed.
+
+Example ex_lone_listing :
+  (* an image with ref 2 is in the table; the lone SDS with ref 2 is still listed *)
+  list_lone_sds [2] [(DFTAG_RI, 1); (DFTAG_RI, 2)] = [(DFTAG_RI, 1); (DFTAG_RI, 2); (DFTAG_NDG, 2)] /\
+  list_lone 0 sds_tags DFTAG_NDG [2] [(DFTAG_RI, 1); (DFTAG_RI, 2)] = [(DFTAG_RI, 1); (DFTAG_RI, 2)].
+Proof. vm_compute. split; reflexivity. Qed.
+
+Example ex_field_selection :
+  fields_walk [] [[[105; 100]; [116]; [99]]; [[105; 100]; [108; 97]; [108; 111]]] [[105; 100]; [99]] = [[0; 2]; [0]].
+Proof. vm_compute. reflexivity. Qed.
